@@ -78,6 +78,17 @@ def proof_stage(pid):
         res["errors"].append("coq build failed: " + log[-1500:])
         return res
     pf = os.path.join(COQ, "Properties", pid + ".v")
+    pre = []
+    if pid == "C19":
+        # the hypothesis about the source is regenerated from /repo on every run
+        from props import C19 as _c19
+        try:
+            gen, _ = _c19.generate_footprint()
+        except Exception as e:
+            res["errors"].append("footprint scanner failed: " + str(e)[-800:])
+            return res
+        pf = os.path.join(COQ, "Separate", "C19.v")
+        pre = [gen]
     if not os.path.exists(pf):
         res["errors"].append("no property file " + pf)
         return res
@@ -92,6 +103,12 @@ def proof_stage(pid):
         line = line.strip()
         if line.startswith("-Q") or line.startswith("-R"):
             args += line.split()
+    args += ["-Q", "Generated", "Generated"]
+    for g in pre:
+        pg = subprocess.run(["timeout", "600"] + args + [g], cwd=COQ, capture_output=True, text=True)
+        if pg.returncode != 0:
+            res["errors"].append("generated file does not compile: " + (pg.stdout + pg.stderr)[-800:])
+            return res
     p = subprocess.run(["timeout", "1200"] + args + [pf], cwd=COQ, capture_output=True, text=True)
     out = p.stdout + p.stderr
     if p.returncode != 0:
